@@ -301,6 +301,38 @@ fn check_model(
             }
         }
     }
+    if exact {
+        // far windows: max_events of a (jittered) periodic / sporadic process is eventually
+        // periodic, max(x + T) = max(x) + 1; validated on the explored range, then extended
+        fn period_of(s: &ArrSpec) -> Option<u64> {
+            match s {
+                ArrSpec::Periodic { t } | ArrSpec::Sporadic { t, .. } => Some(*t),
+                ArrSpec::Jitter { inner, .. } | ArrSpec::Propagated { inner, .. } => period_of(inner),
+                _ => None,
+            }
+        }
+        if let Some(t) = period_of(spec) {
+            let tu = t as usize;
+            if h >= 3 * tu && (h - 2 * tu..=h - tu).all(|x| m[x + tu] == m[x] + 1) {
+                let lo = (h - 2 * tu) as u64;
+                for far in [1_000_000_007u64, (1 << 40) + 1, (1 << 60) + 3] {
+                    let base = lo + (far - lo) % t;
+                    let want = m[base as usize] + (far - base) / t;
+                    st.2 += 1;
+                    match catch(|| ab.number_arrivals(d(far)) as u64) {
+                        Ok(e) if e == want => {}
+                        Ok(e) => ctx.violation(
+                            &format!("{name}::number_arrivals#{}+far-window", if e < want { "undercounts" } else { "not-attained" }),
+                            &format!("{:?}.number_arrivals({far}) = {e}, the periodic extension of the maximum over all admissible sequences is {want}", spec),
+                            "arr-far",
+                            json!({"spec": spec, "delta": far, "want": want}),
+                        ),
+                        Err(err) => ctx.violation(&format!("{name}::number_arrivals#panic"), &format!("{:?}.number_arrivals({far}) panicked: {err}", spec), "arr-far", json!({"spec": spec, "delta": far, "want": want})),
+                    }
+                }
+            }
+        }
+    }
     if samples.len() < 4 && ns > 3 && m[h] > 3 {
         samples.push(json!({"model": spec, "automaton_states": ns, "automaton_transitions": nt,
             "max_events_prefix": &m[..10.min(h)], "number_arrivals_prefix": (0..10.min(h)).map(|x| ab.number_arrivals(d(x as u64))).collect::<Vec<_>>()}));
@@ -538,7 +570,7 @@ pub fn run_c10(ctx: &mut Ctx) -> (String, Value, Vec<String>) {
         "evaluations": st.2,
         "distinct_nontrivial": st.3,
         "models": models,
-        "rule": format!("every model of the box: automaton of its documented process explored, max events over all paths per window length 0..={h} (DP over the state graph) compared with number_arrivals; non-trivial = window lengths admitting more than one event"),
+        "rule": format!("every model of the box: automaton of its documented process explored, max events over all paths per window length 0..={h} (DP over the state graph) compared with number_arrivals; for (jittered) periodic / sporadic models additionally three far windows (up to 2^60) against the periodic extension of the model maximum; non-trivial = window lengths admitting more than one event"),
         "automaton_release_vectors_validated_against_literal_definitions": validated,
         "exhaustive": true,
     });
@@ -601,6 +633,13 @@ pub fn replay_sbf(case: &Value) -> bool {
 
 pub fn replay_arr(case: &Value) -> bool {
     let spec: ArrSpec = serde_json::from_value(case["spec"].clone()).unwrap();
+    if let Some(want) = case.get("want").and_then(|x| x.as_u64()) {
+        // far window: the expected value is the periodic extension recorded in the artefact
+        let far = case["delta"].as_u64().unwrap();
+        let got = catch(|| spec.build().number_arrivals(d(far)) as u64);
+        println!("replay: library {:?}, periodic extension of the model maximum {want}", got);
+        return got != Ok(want);
+    }
     let h = case.get("delta").and_then(|x| x.as_u64()).unwrap_or(30) as usize + 2;
     let aut = match Aut::of(&spec) {
         Some(a) => a,
